@@ -298,7 +298,7 @@ fn build(step: &Step, pool: &[Option<LeanString>], statics: &[&'static str]) -> 
                 StrRoute::From => LeanString::from(s),
                 StrRoute::String => LeanString::from(roomy_string(s)),
                 StrRoute::RefString => {
-                    let owned = String::from(s);
+                    let owned = roomy_string(s);
                     LeanString::from(&owned)
                 }
                 StrRoute::Box => LeanString::from(Box::<str>::from(s)),
@@ -317,7 +317,7 @@ fn build(step: &Step, pool: &[Option<LeanString>], statics: &[&'static str]) -> 
                     }
                 }
                 StrRoute::Tls => {
-                    let owned = String::from(s);
+                    let owned = roomy_string(s);
                     if try_mode {
                         owned.try_to_lean_string()?
                     } else {
@@ -362,9 +362,9 @@ fn build(step: &Step, pool: &[Option<LeanString>], statics: &[&'static str]) -> 
         Op::CollectStrs { via, panic_at, pieces } => {
             let it = StrIter { items: pieces, pos: 0, panic_at: *panic_at };
             match via {
-                Via::String => it.map(String::from).collect::<LeanString>(),
+                Via::String => it.map(roomy_string).collect::<LeanString>(),
                 Via::Boxed => it.map(Box::<str>::from).collect::<LeanString>(),
-                Via::Cow => it.enumerate().map(|(k, x)| if k % 2 == 0 { Cow::Borrowed(x) } else { Cow::Owned(x.to_string()) }).collect::<LeanString>(),
+                Via::Cow => it.enumerate().map(|(k, x)| if k % 2 == 0 { Cow::Borrowed(x) } else { Cow::Owned(roomy_string(x)) }).collect::<LeanString>(),
                 Via::Lean => it.map(lean_item).collect::<LeanString>(),
                 _ => it.collect::<LeanString>(),
             }
@@ -486,9 +486,9 @@ fn edit(step: &Step, slot: &mut Option<LeanString>) -> Result<Option<Option<char
         Op::ExtendStrs { via, panic_at, pieces, .. } => {
             let it = StrIter { items: pieces, pos: 0, panic_at: *panic_at };
             match via {
-                Via::String => s.extend(it.map(String::from)),
+                Via::String => s.extend(it.map(roomy_string)),
                 Via::Boxed => s.extend(it.map(Box::<str>::from)),
-                Via::Cow => s.extend(it.enumerate().map(|(k, x)| if k % 2 == 0 { Cow::Borrowed(x) } else { Cow::Owned(x.to_string()) })),
+                Via::Cow => s.extend(it.enumerate().map(|(k, x)| if k % 2 == 0 { Cow::Borrowed(x) } else { Cow::Owned(roomy_string(x)) })),
                 Via::Lean => s.extend(it.map(lean_item)),
                 _ => s.extend(it),
             }
